@@ -260,7 +260,7 @@ fn misnumbered_file(n: usize) -> Vec<u8> {
 fn split_family() -> Vec<(String, Vec<u8>)> {
     let mut out = vec![];
     for n in [16u32, 33] {
-        for kind in 0..7usize {
+        for kind in 0..10usize {
             for pos in 1..n - 1 {
                 let len_id = n; // the shared length object is the last entry
                 let mut f = b"%PDF-1.4\n".to_vec();
@@ -269,15 +269,22 @@ fn split_family() -> Vec<(String, Vec<u8>)> {
                     offs[id as usize] = f.len();
                     let body: String = if id == len_id {
                         match kind {
-                            0 | 5 | 6 => "10".into(),
+                            0 | 5 | 6 | 7 | 8 | 9 => "10".into(),
                             1 => "-1".into(),
                             2 => format!("{} 0 R", len_id),
                             3 => "(not a number)".into(),
                             _ => "4000000".into(),
                         }
+                    } else if kind == 9 && id > 2 {
+                        // every other object is a stream whose /Length names the length object with a WRONG generation,
+                        // except the one at `pos`, which names it correctly
+                        format!("<</Length {} {} R/Which {}>>\nstream\n0123456789\nendstream", len_id, if id == pos { 0 } else { 1 }, id)
                     } else if id == pos || id == pos + 1 {
                         let first = id == pos;
                         match (kind, first) {
+                            // the same length object named with the right and with a wrong generation, in both orders
+                            (7, true) | (8, false) => format!("<</Length {} 0 R/Which {}>>\nstream\n0123456789\nendstream", len_id, id),
+                            (7, false) | (8, true) => format!("<</Length {} 1 R/Which {}>>\nstream\n0123456789\nendstream", len_id, id),
                             (5, true) => "(unterminated string".into(),
                             (6, true) => format!("<</Length {} 0 R>>\nstream\n0123456789\nendstream\nendobj\n{} 0 obj\n<</Length 99 0 R>>\nstream\nshadow\nendstream", len_id, id),
                             _ => format!("<</Length {} 0 R/Which {}>>\nstream\n0123456789\nendstream", len_id, id),
@@ -388,6 +395,38 @@ fn encrypted_family() -> Vec<(String, Vec<u8>)> {
     out
 }
 
+/// Classic-table files holding object streams whose /N is SMALLER than the number of pairs in their index
+/// block (lopdf merges the members of every object stream it meets, listed in the table or not): which
+/// members are loaded must not depend on how the index block is split among workers.
+fn objstm_n_family() -> Vec<(String, Vec<u8>)> {
+    let mut out = vec![];
+    for (containers, pairs, n) in [(3usize, 1500usize, 700i64), (2, 64, 10), (2, 300, 299), (1, 4000, 1), (2, 1500, 0), (2, 1500, -1), (2, 1500, 5000)] {
+        let mut f = b"%PDF-1.5\n".to_vec();
+        let mut offs = vec![];
+        offs.push(f.len());
+        f.extend_from_slice(b"1 0 obj\n<</Type/Catalog>>\nendobj\n");
+        for c in 0..containers {
+            let mut index = String::new();
+            let mut body = String::new();
+            for k in 0..pairs {
+                index.push_str(&format!("{} {} ", 100 + c * pairs + k, body.len()));
+                body.push_str(&format!("{} ", c * pairs + k));
+            }
+            let data = format!("{}{}", index, body);
+            offs.push(f.len());
+            f.extend_from_slice(format!("{} 0 obj\n<</Type/ObjStm/N {}/First {}/Length {}>>\nstream\n{}\nendstream\nendobj\n", 2 + c, n, index.len(), data.len(), data).as_bytes());
+        }
+        let x = f.len();
+        f.extend_from_slice(format!("xref\n0 {}\n0000000000 65535 f \n", offs.len() + 1).as_bytes());
+        for o in &offs {
+            f.extend_from_slice(format!("{:010} 00000 n \n", o).as_bytes());
+        }
+        f.extend_from_slice(format!("trailer\n<</Size {}/Root 1 0 R>>\nstartxref\n{}\n%%EOF", offs.len() + 1, x).as_bytes());
+        out.push((format!("objstm /N {} with {} pairs x {} containers", n, pairs, containers), f));
+    }
+    out
+}
+
 fn schedule_tree_nodes(k: usize) -> u64 {
     // number of ordered prefixes of k distinct blocks: sum_{j=0..k} k!/(k-j)!
     (0..=k).map(|j| factorial(k) / factorial(k - j)).sum()
@@ -448,6 +487,7 @@ fn main() {
         run.set("digests", json!(digests));
         let mut fam = split_family();
         fam.extend(encrypted_family());
+        fam.extend(objstm_n_family());
         let sd: Vec<String> = fam.iter().map(|(_, b)| format!("{:016x}", digest_of(&util::load(b)).0)).collect();
         run.eval(sd.len() as u64);
         run.set("split_digests", json!(sd));
@@ -457,7 +497,7 @@ fn main() {
         "files from the reference writer with k object-stream containers (k<=4 quick, <=6 thorough), every assignment of copies of 3 object \
          numbers to containers (all 7^k mask sequences for small k, {1,3,7}^k for large k), with and without cross-reference entries for the \
          duplicated number, with deferred-length and empty streams, and (k <= 3) with every container's own /Length stored in a further object stream so that the containers are resolved late; for every file ALL k! x z! orders of the merge blocks / zero-length list are \
-         executed through hook H1 on the real Reader; plus a family of classic-table files (16 and 33 entries x 7 kinds of trouble pair x every position) loaded on pools of 1, 2, 3, 4, 8, 16 threads and by the sequential build, and 36 RC4-encrypted files whose duplicated object numbers sit in object streams that the decryption step expands, which must all agree; non-trivial = file with a number stored in >= 2 containers or a split-family file; files distinct by construction",
+         executed through hook H1 on the real Reader; plus a family of classic-table files (16 and 33 entries x 10 kinds of trouble pair - shared, invalid, cyclic, missing lengths, a length object named with a wrong generation - x every position; object streams whose /N is smaller than their index block) loaded on pools of 1, 2, 3, 4, 8, 16 threads and by the sequential build, and 36 RC4-encrypted files whose duplicated object numbers sit in object streams that the decryption step expands, which must all agree; non-trivial = file with a number stored in >= 2 containers or a split-family file; files distinct by construction",
     );
     run.assume("the two mutex-protected appends are the only schedule-visible actions of the parallel phase (DESIGN §3); rayon's collect() is order-preserving");
     let mut seq_split: Vec<String> = vec![];
@@ -581,13 +621,14 @@ fn main() {
         }
         run.set("encrypted_family_files", json!(enc.len()));
         fam.extend(enc);
+        fam.extend(objstm_n_family());
         let pools: Vec<(usize, rayon::ThreadPool)> = [1usize, 2, 3, 4, 8, 16].iter().map(|t| (*t, rayon::ThreadPoolBuilder::new().num_threads(*t).build().unwrap())).collect();
         let mut loads = 0u64;
         for (i, (label, bytes)) in fam.iter().enumerate() {
             let mut seen: BTreeMap<u64, Vec<String>> = BTreeMap::new();
             // (files of the encrypted family are loaded 8 times per pool: the order in which a parallel
             // decryption step would finish is not under the hook's control - this repetition is SAMPLING)
-            let reps = if label.starts_with("encrypted") { 8 } else { 1 };
+            let reps = if label.starts_with("encrypted") || label.starts_with("objstm /N") || label.contains("kind=9") { 8 } else { 1 };
             for (t, pool) in &pools {
                 for _ in 0..reps {
                     let dg = pool.install(|| digest_of(&load_with(bytes, MergeOrder::Sorted)).0);
